@@ -20,7 +20,9 @@ import common
 import tlc
 from common import spec, cfgpath
 
-CONTENT = {1: b'alpha text file\n' * 20, 2: b'nested b.txt\n', 3: b'text without extension, long enough ' * 40,
+CONTENT = {1: b'alpha text file\n' * 20, 2: b'nested b.txt\n',
+           # text in several scripts, UTF-8 encoded: still text (the type of an extension-less file is guessed from its bytes)
+           3: (u'text without extension \u2014 \u043a\u0438\u0440\u0438\u043b\u043b\u0438\u0446\u0430 \u65e5\u672c\u8a9e \u20ac caf\xe9 ' * 40).encode('utf8'),
            4: bytes(range(256)) * 8, 5: b'', 6: b'SHADOWED a.txt of aroot2\n', 7: b'only in aroot2\n',
            8: b'a.txt of the second application\n', 9: b'third, second application only\n'}
 TREE = {'zroot1': {'a.txt': 1, 'd/b.txt': 2, 'noext': 3, 'd/bin': 4, 'empty': 5},
@@ -41,6 +43,11 @@ def materialise():
             os.makedirs(os.path.dirname(p), exist_ok=True)
             with open(p, 'wb') as f:
                 f.write(CONTENT[cid])
+    # one file carries a modification time in the FUTURE (unpacked archive, skewed clock): it is served and revalidated
+    # like any other
+    import time as _t
+    fut = _t.time() + 2 * 86400
+    os.utime(os.path.join(base, 'tree', 'zroot1', 'd', 'b.txt'), (fut, fut))
     for rel in ('tree/secret.txt', 'secret.txt', 'tree/zroot1/../beside.txt'):
         with open(os.path.join(base, rel), 'wb') as f:
             f.write(SECRET)
